@@ -17,7 +17,7 @@
     split (coinswap, farm, token), and an htlc asset whose fixed fee + minimum swap amount reach 2^256
     overflows the Int addition in CreateHTLC; the handler panics.  The [_partial] theorems carry the
     hypothesis [*_small] and the [_refuted] theorems show that it cannot be dropped. *)
-From Irismod Require Import Params.Model Params.Check Params.Proofs.
+From Irismod Require Import Params.Model Params.Check Params.Proofs Params.Sound.
 
 (** ** Only the authority updates *)
 
@@ -213,4 +213,29 @@ Example c16_nonvacuous_history :
 Proof.
   cbv zeta. split; [|repeat split; vm_compute; reflexivity].
   simpl. repeat apply Forall_cons; try apply Forall_nil; vm_compute; try reflexivity; try exact I; discriminate.
+Qed.
+
+(** ** The check never demands more than what is proved ([Params/Sound.v])
+
+    On any case whose observations agree with the model at every step (first component of
+    [check_case] = -1), whose submitted set and operations satisfy the side conditions above and
+    whose operations are all modelled ones, the property clauses evaluated on the implementation's
+    own observations hold (second component = -1): no update by a non-authority, no invalid set
+    stored, no abort under the accepted set. *)
+Theorem agreement_implies_property :
+  forall c : case, case_wf c -> fst (fst (check_case c)) = -1 -> snd (fst (check_case c)) = -1.
+Proof. exact agreement_implies_property_lemma. Qed.
+Print Assumptions agreement_implies_property.
+
+Example c16_nonvacuous_case :
+  let p := mkCs (Some 500000000000000000) (mkCoin 1 (Some 7)) (Some 1) (Some 0) in
+  let c := CaseCS (mkCase 0 p 0 0 cs_defaults p
+                     [(CsCreatePool 100 100 100 10 10, 0, CsCreatePool 100 100 100 10 10, 1);
+                      (CsSell 5 100 100 5, 0, CsSell 5 100 100 5, 0);
+                      (CsBuy 200 100 100 5, 1, CsBuy 200 100 100 5, 1)]) in
+  case_wf c /\ check_case c = (-1, -1, 0).
+Proof.
+  cbv zeta. split; [|vm_compute; reflexivity].
+  split; [vm_compute; reflexivity|].
+  simpl. repeat apply Forall_cons; try apply Forall_nil; (split; [simpl; try exact I; lia|vm_compute; discriminate]).
 Qed.
